@@ -7,6 +7,7 @@ mod c04;
 mod c05;
 mod c07;
 mod c08;
+mod c09;
 mod c10;
 mod c11;
 mod c12;
@@ -14,6 +15,7 @@ mod c13;
 mod c13gen;
 mod c15;
 mod c16;
+mod c17;
 mod c18;
 mod c19;
 mod c20;
@@ -24,6 +26,7 @@ mod driver;
 mod flatgen;
 mod gen;
 mod prng;
+mod projgen;
 mod report;
 mod sx;
 mod tygen;
@@ -50,6 +53,12 @@ fn main() {
     // child-process entries (run in a fresh process so that a stack overflow is an observation)
     if sub == "c20-uplc-text-probe" {
         c20_text::probe();
+    }
+    if sub == "c09-child" {
+        c09::child(&args);
+    }
+    if sub == "c17-child" {
+        c17::child(&args);
     }
     if sub == "c20-flat-deep" {
         c20::deep_child(args[2].parse().expect("depth"), &args[3]);
@@ -108,6 +117,9 @@ fn main() {
         "c04-builtin" => c04::run(&ctx),
         "c07-check" => c07::check(&ctx),
         "c07-run" => c07::rt::run(&ctx),
+        "c09-det" => c09::run(&ctx),
+        "c09-sites" => c09::sites(&ctx),
+        "c17-iso" => c17::run(&ctx),
         other => {
             eprintln!("unknown sub-command {other}");
             std::process::exit(2);
